@@ -1068,6 +1068,7 @@ impl<BE: Backend> GLWEShiftDefault<BE> for Module<BE> where
     Self: ModuleN
         + VecZnxRshAssign<BE>
         + VecZnxLshAddInto<BE>
+        + VecZnxZero
         + VecZnxLshSub<BE>
         + VecZnxRshTmpBytes
         + VecZnxLshTmpBytes
@@ -1082,6 +1083,7 @@ where
     Self: ModuleN
         + VecZnxRshAssign<BE>
         + VecZnxLshAddInto<BE>
+        + VecZnxZero
         + VecZnxLshSub<BE>
         + VecZnxRshTmpBytes
         + VecZnxLshTmpBytes
@@ -1152,8 +1154,13 @@ where
         assert!(res.rank() >= a.rank());
 
         let base2k: usize = res.base2k().into();
-        for i in 0..res.rank().as_usize() + 1 {
+        let a_cols: usize = a.rank().as_usize() + 1;
+        for i in 0..a_cols {
             self.vec_znx_lsh(base2k, k, res.data_mut(), i, a.data(), i, scratch);
+        }
+        // Columns that `a` does not have (e.g. a plaintext shifted into a ciphertext) are zero.
+        for i in a_cols..res.rank().as_usize() + 1 {
+            self.vec_znx_zero(res.data_mut(), i);
         }
     }
 
@@ -1178,7 +1185,7 @@ where
         assert!(res.rank() >= a.rank());
 
         let base2k: usize = res.base2k().into();
-        for i in 0..res.rank().as_usize() + 1 {
+        for i in 0..a.rank().as_usize() + 1 {
             self.vec_znx_lsh_add_into(base2k, k, res.data_mut(), i, a.data(), i, scratch);
         }
     }
@@ -1204,7 +1211,7 @@ where
         assert!(res.rank() >= a.rank());
 
         let base2k: usize = res.base2k().into();
-        for i in 0..res.rank().as_usize() + 1 {
+        for i in 0..a.rank().as_usize() + 1 {
             self.vec_znx_lsh_sub(base2k, k, res.data_mut(), i, a.data(), i, scratch);
         }
     }
